@@ -1,6 +1,7 @@
 \* minimal counterexample of one defect on the real geometry (W = 8192, base image of 8188 blocks).
 \* checks/C09.py rewrites the three switches (one FALSE at a time), MaxGraceful and the invariant;
 \* no VIEW: act/res are part of the state so that the Cex* invariants see every call's result.
+\* measured: 392..1 047 distinct states until the (BFS-minimal) counterexample, depth 7..10
 CONSTANTS
   W = 8192
   Base = 8188
